@@ -640,6 +640,7 @@ def sample_streams(ck, rng, chain_traces):
 
 def record_traces(ck, rep, dev, rng, chain_traces):
     lzw, rl, pred = [], [], []
+    budget = {"lzw": 150000, "pred": 8000} if ck.tier == "quick" else {"lzw": 1000000, "pred": 30000}
     corpus = payload_corpus(ck, rng)
     samples = sample_streams(ck, rng, chain_traces)
     ck.extra["sample_streams_reencoded"] = len(samples)
@@ -659,7 +660,9 @@ def record_traces(ck, rep, dev, rng, chain_traces):
                 rep("lzw:" + kind, "LZW round trip of %s (%d bytes, %r) failed" % (origin, len(data), kw),
                     {"part": "lzw", "enc": enc, "expected": data})
                 continue
-            lzw.append({"ev": ev, "total": len(data), "origin": origin + " " + json.dumps(kw)})
+            if budget["lzw"] > 0:       # (every round trip is compared above; TLC validates traces up to a budget of events)
+                budget["lzw"] -= len(ev)
+                lzw.append({"ev": ev, "total": len(data), "origin": origin + " " + json.dumps(kw)})
         # ---- RunLength: greedy and a random legal segmentation
         for rr in (None, random.Random(idx)):
             enc = cd.rl_encode(data, rr, eod=(idx % 2 == 0))
@@ -699,6 +702,9 @@ def record_traces(ck, rep, dev, rng, chain_traces):
                                     {"part": "predictor", "kind": kind, "colors": c, "columns": k, "bits": b, "enc": enc,
                                      "expected": x}, cnt)
                     continue
+                if budget["pred"] <= 0:
+                    continue
+                budget["pred"] -= len(ev)
                 pred.append({"kind": kind, "colors": c, "columns": k, "bits": b, "enc": list(enc),
                              "rows": [{"ty": e["ty"], "raw": e["raw"]} for e in ev], "origin": origin})
     # ---- PNG predictor inputs that touch the known deviations, at real scale (classified, not traced)
@@ -959,7 +965,7 @@ def run(ck):
         "rl3": Job("RunLength_H3", "RunLength", {"H": 3, "Bytes": "{0, 1, 2, 3, 4, 5}", "MaxLen": 4 if quick else 5,
                                                  "EODs": "{TRUE, FALSE}"},
                    ["Inverts", "PrefixOK", "RunsOK", "PosOK"], emit=True, coverage=quick),
-        "rl2": Job("RunLength_H2", "RunLength", {"H": 2, "Bytes": "{0, 1, 2, 3}", "MaxLen": 4 if quick else 7,
+        "rl2": Job("RunLength_H2", "RunLength", {"H": 2, "Bytes": "{0, 1, 2, 3}", "MaxLen": 4 if quick else 6,
                                                  "EODs": "{TRUE, FALSE}"},
                    ["Inverts", "PrefixOK", "RunsOK", "PosOK"], emit=True),
         "af": Job("AsciiFrame_intended", "AsciiFrame", af_c("{}"), ["Inverts"], emit=not asc_dev, coverage=quick),
